@@ -103,6 +103,7 @@ def run(tier):
         inplace.run(chk, 'C17.inplace', prog, cfgname)
         inplace.match_count_rule(chk, 'C17.count', prog, cfgname)
         inplace.heap_rules(chk, 'C17.heap', prog, cfgname)
+        inplace.heap_position_typestate(chk, 'C17.state', prog, cfgname)
         from ..rules import logdom
         logdom.run(chk, 'C17.logdom', prog, cfgname)
         if inplace.reset_cover_rule(chk, 'C17.reset', prog, cfgname) < 4:
